@@ -669,7 +669,7 @@ pub fn run(tier: Tier, seed: u64) -> i32 {
         }
     });
     ctx.finish(&check_case, RULE, ASSUMPTIONS, &|l| {
-        for k in ["failure_then_success_on_one_handle", "pool_with_recovered_input", "pool_with_accepted_and_rejected", "grammar_with_memoized", "grammar_with_recursive", "catalogue_histories", "threads:2", "threads:8", "threaded_parses"] {
+        for k in ["configure_through_a_reference_comparisons", "failure_then_success_on_one_handle", "pool_with_recovered_input", "pool_with_accepted_and_rejected", "grammar_with_memoized", "grammar_with_recursive", "catalogue_histories", "threads:2", "threads:8", "threaded_parses"] {
             if l.counters.get(k).copied().unwrap_or(0) == 0 {
                 return Err(format!("class '{}' is empty", k));
             }
